@@ -331,9 +331,17 @@ var ErrNoHandler = errors.New("message dropped: no handler registered")
 // returns ErrNoHandler and if no handler match the message it returns
 // ErrNoMatch.
 func (e *endPoint) dispatch(msg *Message) error {
+	// the handlers which leave the table with this message, and the
+	// number of error answers owed for it. Close callbacks are run and
+	// answers are written once the lock has been released: a callback
+	// may use the end point, and a peer which does not read must not
+	// keep the table locked.
+	var gone []*Handler
+	refused := 0
+
 	e.handlersMutex.Lock()
-	defer e.handlersMutex.Unlock()
 	if len(e.handlers) == 0 {
+		e.handlersMutex.Unlock()
 		return ErrNoHandler
 	}
 	ret := ErrNoMatch
@@ -351,27 +359,28 @@ func (e *endPoint) dispatch(msg *Message) error {
 			default:
 				ret = ErrConsumerBlocked
 				if msg.Header.Type == Call {
-					hdr := NewHeader(Error,
-						msg.Header.Service,
-						msg.Header.Object,
-						msg.Header.Action,
-						msg.Header.ID)
-					var buf bytes.Buffer
-					val := value.String(ret.Error())
-					val.Write(&buf)
-					e.Send(NewMessage(hdr, buf.Bytes()))
+					refused++
 				}
 			}
 		}
 		if !keep {
-			h.closeWith(nil)
+			// out of the table: nothing is sent to it anymore
+			gone = append(gone, h)
 			e.handlers[i] = nil
 		}
+	}
+	e.handlersMutex.Unlock()
+
+	for _, h := range gone {
+		h.closeWith(nil)
 	}
 	if ret == ErrNoMatch && msg.Header.Type == Call {
 		// nobody will ever answer this call (for instance it is
 		// addressed to a client side object which has been removed):
 		// tell the caller instead of letting it wait.
+		refused++
+	}
+	for ; refused > 0; refused-- {
 		hdr := NewHeader(Error,
 			msg.Header.Service,
 			msg.Header.Object,
